@@ -96,10 +96,35 @@ Proof.
   - intros [].
 Qed.
 
+(** variables mentioned by embedded diagrams *)
+Fixpoint sub_vars (f : form) : list nat :=
+  match f with
+  | FSub b => support b
+  | FNot g | FQuant _ _ g | FFix _ _ g => sub_vars g
+  | FCountC _ fs _ => flat_map sub_vars fs
+  | FCountV _ l r => flat_map sub_vars l ++ flat_map sub_vars r
+  | FIte a b c => sub_vars a ++ sub_vars b ++ sub_vars c
+  | FBin _ a b => sub_vars a ++ sub_vars b
+  | _ => []
+  end.
+Lemma submentions_sub_vars : forall f x, submentions f x = true -> In x (sub_vars f).
+Proof.
+  induction f as [| |v|g IH|q vs g IH|op fs n IH|op l rr IHl IHr|z i g IH|c t e IHc IHt IHe|op l rr IHl IHr|b0|] using form_ind';
+    intros x; cbn [submentions sub_vars]; try discriminate; auto.
+  - rewrite existsb_exists. intros (g & Hg & Hv). apply in_flat_map. exists g. split; auto.
+    rewrite Forall_forall in IH. apply IH; auto.
+  - rewrite orb_true_iff, !existsb_exists. rewrite !Forall_forall in *.
+    intros [(g & Hg & Hv)|(g & Hg & Hv)]; apply in_or_app; [left|right]; apply in_flat_map; exists g; split; auto.
+  - rewrite !orb_true_iff. intros [[H|H]|H]; apply in_or_app; auto; right; apply in_or_app; auto.
+  - rewrite !orb_true_iff. intros [H|H]; apply in_or_app; auto.
+  - intros H. apply mem_nat_In. exact H.
+Qed.
+
 Section LFP.
   Variable X : nat.
   Variable T : form.
-  Hypothesis T_nofsub : nofsub T.
+  (** the body may contain embedded diagrams (it does when an enclosing fixed point is being iterated) *)
+  Hypothesis T_wf : wf T.
   (** the body can be evaluated on every diagram (true for fixed-point-free bodies, and for bodies
       whose inner fixed points are themselves monotone) *)
   Hypothesis T_total : forall b, robdd b -> exists n b', eval_f n (replace_var X (FSub b) T) = Some b'.
@@ -107,24 +132,24 @@ Section LFP.
   Hypothesis T_mono : forall d1 d2 e1 e2, dle d1 d2 ->
     Den (bind empty X d1) T e1 -> Den (bind empty X d2) T e2 -> dle e1 e2.
 
-  Definition U := all_vars T.
+  Definition U := all_vars T ++ sub_vars T.
   Definition tr (n : nat) (b : bdd) : option bdd := eval_f n (replace_var X (FSub b) T).
 
   Lemma tr_good n b b' : good U b -> tr n b = Some b' -> good U b'.
   Proof.
     intros [Hr Hs] He. unfold tr in He.
-    assert (Hwf : wf (replace_var X (FSub b) T)) by (apply wf_replace; auto; apply nofsub_wf; auto).
+    assert (Hwf : wf (replace_var X (FSub b) T)) by (apply wf_replace; auto).
     split; [apply (sound _ _ _ Hwf He)|].
     intros x Hx. destruct (eval_support _ _ _ Hwf He x Hx) as [H|H].
-    - apply vocc_replace in H. destruct H as [H _]. apply vocc_all_vars. exact H.
+    - apply vocc_replace in H. destruct H as [H _]. apply in_or_app. left. apply vocc_all_vars. exact H.
     - apply submentions_replace in H. destruct H as [H|H]; [|apply Hs; exact H].
-      rewrite (nofsub_submentions T x T_nofsub) in H. discriminate.
+      apply in_or_app. right. apply submentions_sub_vars. exact H.
   Qed.
 
   Lemma tr_den n b b' : robdd b -> tr n b = Some b' -> Den (bind empty X (bden b)) T (bden b').
   Proof.
     intros Hr He. unfold tr in He.
-    assert (Hwf : wf (replace_var X (FSub b) T)) by (apply wf_replace; auto; apply nofsub_wf; auto).
+    assert (Hwf : wf (replace_var X (FSub b) T)) by (apply wf_replace; auto).
     apply subst_den. apply (sound _ _ _ Hwf He).
   Qed.
 
@@ -197,7 +222,7 @@ End KleeneDown.
 Section GFP.
   Variable X : nat.
   Variable T0 : form.
-  Hypothesis T_nofsub : nofsub T0.
+  Hypothesis T_wf : wf T0.
   Hypothesis T_total : forall b, robdd b -> exists n b', eval_f n (replace_var X (FSub b) T0) = Some b'.
   Hypothesis T_mono : forall d1 d2 e1 e2, dle d1 d2 ->
     Den (bind empty X d1) T0 e1 -> Den (bind empty X d2) T0 e2 -> dle e1 e2.
@@ -211,15 +236,15 @@ Section GFP.
     - intros n m b x H Hle. unfold tr in *. eapply eval_mono_le; eauto.
     - intros b Hb. destruct (T_total b (proj1 Hb)) as (n & b' & He). exists n, b'. split; auto. eapply tr_good; eauto.
     - intros n m a b a' b' Ha Hb Hab Ea Eb.
-      pose proof (tr_den X T0 T_nofsub n a a' (proj1 Ha) Ea) as Da. pose proof (tr_den X T0 T_nofsub m b b' (proj1 Hb) Eb) as Db.
+      pose proof (tr_den X T0 T_wf n a a' (proj1 Ha) Ea) as Da. pose proof (tr_den X T0 T_wf m b b' (proj1 Hb) Eb) as Db.
       intros s. apply (T_mono (bden a) (bden b) (bden a') (bden b')); auto.
     - exists (S n), r. split; [|split; [apply Hr|split]].
       + cbn [eval_f bconst].
         eapply fp_opt_mono_le; [| |exact Hn]; [lia|]. intros x y Hxy. exact Hxy.
-      + apply (tr_den X T0 T_nofsub n r r (proj1 Hr) Hfix).
+      + apply (tr_den X T0 T_wf n r r (proj1 Hr) Hfix).
       + intros d e HD Hpost. apply (Hinv (fun x => dle d (bden x))).
         * intros s _. reflexivity.
-        * intros x m x' Hx Px Ex. pose proof (tr_den X T0 T_nofsub m x x' (proj1 Hx) Ex) as Dx.
+        * intros x m x' Hx Px Ex. pose proof (tr_den X T0 T_wf m x x' (proj1 Hx) Ex) as Dx.
           intros s Hs. apply (T_mono d (bden x) e (bden x') Px HD Dx s). apply Hpost. exact Hs.
   Qed.
 End GFP.
